@@ -66,8 +66,13 @@ def float64OfInt (i : Int) : Int :=
 def goIntOfFloat (x : Int) : Int :=
   if x < -(2 ^ 63 : Int) ∨ (2 ^ 63 : Int) ≤ x then -(2 ^ 63 : Int) else x
 
-/-- a JSON number decoded into `interface{}` and converted by `PathIndex(int(v))` -/
-def indexOfNumber (i : Int) : Int := goIntOfFloat (float64OfInt i)
+/-- what an integral JSON number went through before the repair: `float64`, then `int(v)` -/
+def indexThroughFloat (i : Int) : Int := goIntOfFloat (float64OfInt i)
+
+/-- `Path.UnmarshalJSON` on an integral JSON number (decoded with `UseNumber`): `json.Number.Int64()`
+    when the text is an int64, otherwise through `Float64()` and `int(f)` as before -/
+def indexOfNumber (i : Int) : Int :=
+  if -(2 ^ 63 : Int) ≤ i ∧ i < (2 ^ 63 : Int) then i else indexThroughFloat i
 
 /- ---------------- Path.UnmarshalJSON ---------------- -/
 
